@@ -49,6 +49,7 @@ LoopsOf(m, is) == {m.inv[i].loop : i \in is}
 InSafetyWindow(m, c, to) ==
     \E l \in m.call[c].dep :
         /\ l \in DOMAIN m.death
+        /\ ~Get(m.running, l, FALSE)           \* (a loop that was run again serves its waiters itself)
         /\ m.death[l] >= m.call[c].start
         /\ to <= m.death[l] + SafetyMs
 
@@ -87,7 +88,15 @@ MStep(m, e, idx) ==
                    \*  clean-up, i.e. until that caller's CallEnd: a newcomer may still find the in-flight marker)
                    !.done = IF e.how = "ok" /\ k \notin DOMAIN @ THEN Put(@, k, e.i) ELSE @]
     [] e.e = "Cancel" -> [m0 EXCEPT !.cancelled = @ \cup {e.c}]
-    [] e.e = "LoopRunning" -> [m0 EXCEPT !.running = Put(@, e.loop, TRUE)]
+    [] e.e = "LoopRunning" ->
+        \* a loop that is run again resumes whatever was left pending on it: those invocations are in progress again
+        \* (not the ones whose caller has been cancelled meanwhile - e.g. by the loop's shutdown, which runs the loop
+        \*  once more only to let the cancelled tasks finish)
+        LET back == {i \in DOMAIN m.inv : m.inv[i].loop = e.loop /\ m.inv[i].st = "run" /\ m.inv[i].c \notin m.cancelled}
+            ks == {m.inv[i].k : i \in back} IN
+        [m0 EXCEPT !.running = Put(@, e.loop, TRUE),
+                   !.live = [k \in (DOMAIN @) \cup ks |->
+                               Get(@, k, {}) \cup {i \in back : m.inv[i].k = k}]]
     [] e.e = "LoopStopped" ->
         \* invocations pending on a loop that stopped running count as ended from now on
         [m0 EXCEPT !.running = Put(@, e.loop, FALSE),
